@@ -152,13 +152,14 @@ class rrulebase(object):
         if self._cache_complete:
             return self._cache[item]
         elif isinstance(item, slice):
-            if item.step and item.step < 0:
+            if any(x is not None and x < 0
+                   for x in (item.start, item.stop, item.step)):
                 return list(iter(self))[item]
             else:
                 return list(itertools.islice(self,
-                                             item.start or 0,
-                                             item.stop or sys.maxsize,
-                                             item.step or 1))
+                                             item.start,
+                                             item.stop,
+                                             item.step))
         elif item >= 0:
             gen = iter(self)
             try:
